@@ -48,6 +48,17 @@ def validate_trace(wd, trace_file, parties, honest, R, shapeB, shapeM, extra_inv
     return r
 
 
+def validate_twoparty(wd, trace_file, parties, honest, R, extra_invariants=()):
+    """Doerner sessions run on the TwoPartyHandler: validated against TwoParty.tla"""
+    consts = {"P": set(parties), "Honest": set(honest), "R": R, "First": sorted(parties)[0], "Variants": {"h", "mut", "junk"},
+              "MaxInject": 0, "MaxDup": 0, "StopAllowed": True, "TraceFile": os.path.basename(trace_file)}
+    c = vlib.cfg(consts, spec="TraceSpec", invariants=["TypeOK", "NoBadAccepted", "WrongNeverAccepted"] + list(extra_invariants),
+                 postcondition="TraceAccepted")
+    r = vlib.tlc(wd, "TwoPartyTrace", c, files=[trace_file], workers=1, timeout=900)
+    r["lines"] = sum(1 for _ in open(trace_file))
+    return r
+
+
 def trace_line(trace_file, n):
     with open(trace_file) as fh:
         for i, line in enumerate(fh, 1):
@@ -168,6 +179,8 @@ def run_adversarial(wd, scenarios, tag, seed=0, timeout=3000, shards=1):
     def validate(g):
         anyscen = next(s for s in scenarios if s["proto"] == g["proto"] and s["n"] == g["n"])
         d = discover(g["proto"], g["n"], anyscen.get("t", 1), seed)
+        if g["proto"].startswith("doerner"):
+            return g, validate_twoparty(wd, g["file"], g["parties"], g["honest"], d["R"])
         consts = handler_consts(g["parties"], g["honest"], d["R"], d["shapeB"] or [], d["shapeM"] or [],
                                 variants=ADV_VARIANTS, proto_aborts=True)
         consts["TraceFile"] = os.path.basename(g["file"])
